@@ -60,7 +60,7 @@ CHECKS = [
     {
         "id": "C01",
         "technique": PBT + " (recording / fault-injecting stream double + independent frame validator) + atheris coverage-guided fuzzing with the same oracle inside the target",
-        "text": "Generated adversarial streams (valid, bit-damaged, truncated and decoy frames, frames nested in UBX/NMEA/other frames, sync-dense noise) crossed with generated scripts of short and empty reads and all error modes; every delivered pair must be a well-formed frame by the harness's own validator, a contiguous in-order non-overlapping slice of the bytes handed out, with matching payload and message number. Sampled search. Streams also go through a scripted socket with timeouts / OS errors between segments; items include CRC-twin frames (same trailer, different payload), zero-body-CRC and jumbo (reserved bits as length) decoys and frames with look-alike trailers; deliveries are judged after the whole stream has been read.",
+        "text": "Generated adversarial streams (valid, bit-damaged, truncated and decoy frames, frames nested in UBX/NMEA/other frames, sync-dense noise) crossed with generated scripts of short and empty reads and all error modes; every delivered pair must be a well-formed frame by the harness's own validator, a contiguous in-order non-overlapping slice of the bytes handed out, with matching payload and message number. Sampled search. Streams also go through a scripted socket with timeouts / OS errors between segments; items include CRC-twin frames (same trailer, different payload), zero-body-CRC and jumbo (reserved bits as length) decoys and frames with look-alike trailers; deliveries are judged after the whole stream has been read. Stream kinds also include a plain seekable file and chunked (plain / gzip / zlib / deflate per chunk) sockets; after the stream has run dry the same reader is iterated twice more and whatever that delivers is judged the same way.",
         "note": "Trusts the harness's CRC / frame validator; which frames are delivered is left to C02/C05.",
     },
     {
@@ -102,7 +102,7 @@ CHECKS = [
     {
         "id": "C17",
         "technique": PBT + " differential between reader configurations over a recording stream double",
-        "text": "Generated streams of valid, wrong-CRC and foreign items read under validate x parsed x labelmsm x quitonerror; validate=0 must return every frame decoded as with the right CRC, parsed=False the same raw frames with no objects, and byte accounting per frame must be identical in every configuration. Readers for all configurations are optionally constructed up-front; streams are a recording double or a genuine io.BufferedReader with a generated buffer size; DEBUG logging is a generated option.",
+        "text": "Generated streams of valid, wrong-CRC and foreign items read under validate x parsed x labelmsm x quitonerror; validate=0 must return every frame decoded as with the right CRC, parsed=False the same raw frames with no objects, and byte accounting per frame must be identical in every configuration. Readers for all configurations are optionally constructed up-front; streams are a recording double or a genuine io.BufferedReader with a generated buffer size; DEBUG logging is a generated option. validate=0 with parsed=False must still hand out the wrong-CRC frames; frames with 0- or 1-byte payloads must fare the same with validate=0 (right or wrong trailer) as with their right trailer under validate=1, for the static parser and behind a reader.",
         "note": "No read faults injected here.",
     },
     {
